@@ -77,3 +77,8 @@ func KeeperStoreKey(module string) string {
 // StaticCallArgFields / StaticStructInit: SSA facts (see engine/intr_static.go); not available natively.
 func StaticCallArgFields(fn, calleeSubstr string) []string { return nil }
 func StaticStructInit(fn, typeSubstr string) []string      { return nil }
+
+// InitGenesisOrder: the order in which the module manager initialises modules from genesis.
+// Engine: the constant list passed to SetOrderInitGenesis in app.NewApp; natively: the real
+// application's ModuleManager.OrderInitGenesis.
+func InitGenesisOrder() []string { return append([]string{}, realApp().ModuleManager.OrderInitGenesis...) }
